@@ -196,8 +196,10 @@ class GeminiClientProtocol(asyncio.Protocol):
                             break
                 try:
                     body = self.buffer.decode(charset)
-                except (UnicodeDecodeError, LookupError) as e:
-                    # Undecodable body or unknown charset label
+                except (LookupError, ValueError) as e:
+                    # Undecodable body (UnicodeDecodeError is a ValueError),
+                    # unknown charset label, or a label no codec lookup
+                    # accepts (embedded NUL, the "undefined" codec)
                     self.response_future.set_exception(e)
                     return
             else:
@@ -430,8 +432,10 @@ class TitanClientProtocol(asyncio.Protocol):
                             break
                 try:
                     body = self.buffer.decode(charset)
-                except (UnicodeDecodeError, LookupError) as e:
-                    # Undecodable body or unknown charset label
+                except (LookupError, ValueError) as e:
+                    # Undecodable body (UnicodeDecodeError is a ValueError),
+                    # unknown charset label, or a label no codec lookup
+                    # accepts (embedded NUL, the "undefined" codec)
                     self.response_future.set_exception(e)
                     return
             else:
